@@ -21,6 +21,7 @@ def run(ctx, sess):
     ctx.rule('C03.a', 'last valid chunk: success of the backward scan requires the header-CRC equal edge and a zero result of the checked chunk read of that candidate')
     ctx.rule('C03.b', 'repair sequence: on every path from the not-closed branch to the published instance: truncate, rewrite last chunk, pointer-repair loop, FSR-rebuild loop, END, close, reopen read-only, in this order; loop bodies skip only undefined slots / undefined tracks / non-FSR signals')
     ctx.rule('C03.e', 'pair commit in pointer repair: a chunk becomes the chunk whose link is cut only after every read of its INDEX+SUMMARY pair succeeded (an index whose summary is missing is never accepted as last valid)')
+    ctx.rule('C03.f', 'repair never follows a missing summary level: whenever an upper-level summary is built from level k, the buffers of level k exist on that path (allocated or already dereferenced for the current value of the level variable)')
     ctx.rule('C03.c', 'chunk then link: every data chunk is linked only after it was completely written')
     ctx.rule('C03.d', 'truncation is reachable only from the repair branch of jls_rd_open')
     ra(ctx, P)
@@ -28,6 +29,7 @@ def run(ctx, sess):
     rc_(ctx, P)
     rd(ctx, P)
     re_(ctx, P)
+    rf_(ctx, P)
 
 
 def ra(ctx, P):
@@ -292,3 +294,72 @@ def re_(ctx, P):
                    'control dependent on %d successful chunk reads' % got if got >= need else
                    '`%s` is committed after %d of the %d reads of the INDEX+SUMMARY pair: an index whose summary was lost stays linked and repair later parses it as data' % (X, got, need))
     ctx.floor('chunk commits in pointer repair', n, 2)
+
+
+def rf_(ctx, P):
+    """Every call jls_core_fsr_summaryN(T, L, ..) reads T->level[L - 1] unconditionally: on every path to the call there
+    must be evidence that this element exists for the *current* value of the index variable."""
+    g = P.fn('jls_core_fsr_summaryN')
+    # the callee really dereferences level[level - 1] without a test
+    src_decl = [ev for ev in g.events('decl') if ev.e is not None and any(nd.get('op') == 'sub' and strip_casts(nd['k'][0]).get('field') == 'level'
+                                                                          and strip_casts(nd['k'][1]).get('op') == 'bin' and strip_casts(nd['k'][1])['o'] == '-' for nd in walk(ev.e))]
+    if not src_decl:
+        raise AnalysisBroken('jls_core_fsr_summaryN: source level local (level[level - 1]) not found')
+    n = 0
+    for fn, c in P.callers().get('jls_core_fsr_summaryN', []):
+        n += 1
+        ctx.saw(fn, 1)
+        L = strip_casts(c.args[1])
+        # index variable and offset: L = v + 1  -> source index v ; L = v -> source index v - 1
+        if L.get('op') == 'bin' and L['o'] == '+' and const_of(L['k'][1]) == 1 and strip_casts(L['k'][0]).get('op') == 'ref':
+            v, src_txt = strip_casts(L['k'][0])['name'], strip_casts(L['k'][0])['name']
+        elif L.get('op') == 'ref':
+            v, src_txt = L['name'], '(%s - 1)' % L['name']
+        else:
+            ctx.ob('C03.f', False, fn.name, 'source level of jls_core_fsr_summaryN(%s)' % show(L), c.where(), 'level argument not understood')
+            continue
+
+        def evidence(e2):
+            # allocation of that level, or a dereference of T->level[src]
+            if e2.k == 'call' and e2.callee == 'jls_core_fsr_summary_level_alloc' and show(strip_casts(e2.args[1])).replace('(u8)', '') in (src_txt, v if src_txt == v else src_txt):
+                return True
+            if e2.e is not None:
+                for nd in walk(e2.e):
+                    if nd.get('op') == 'member' and nd.get('arrow'):
+                        base = strip_casts(nd['k'][0])
+                        if base.get('op') == 'sub' and strip_casts(base['k'][0]).get('field') == 'level' and show(strip_casts(base['k'][1])) == src_txt:
+                            return True
+            # (re)definition of an alias from that very element on this path (it is dereferenced right after)
+            if e2.k in ('store', 'decl') and e2.store_parts()[1] is not None and e2.store_parts()[2] == '=':
+                e3 = strip_casts(e2.store_parts()[1])
+                if e3.get('op') == 'sub' and strip_casts(e3['k'][0]).get('field') == 'level' and show(strip_casts(e3['k'][1])) == src_txt:
+                    return True
+            return False
+
+        def modifies(e2):
+            if e2.k == 'store':
+                l0 = strip_casts(e2.store_parts()[0])
+                return l0.get('op') == 'ref' and l0.get('name') == v
+            return False
+
+        starts = ['entry'] + [e2 for e2 in fn.events('store') if modifies(e2)]
+        w = None
+        for st in starts:
+            w = find_path(fn, st, lambda e2, facts, st=st: 'stop' if (evidence(e2) or (modifies(e2) and e2 is not st)) else ('target' if e2 is c else None),
+                          on_block_end=lambda b, facts: 'stop' if (b.cond is not None and any(evidence_cond(nd, src_txt) for nd in [b.cond])) else None)
+            if w is not None:
+                break
+        ctx.ob('C03.f', w is None, fn.name, 'level[%s] exists when jls_core_fsr_summaryN(%s) reads it' % (src_txt, show(L)), c.where(),
+               'allocated or dereferenced for the current `%s` on every path' % v if w is None else
+               'after `%s` changes, the call can be reached without the buffers of that level existing: jls_core_fsr_summaryN dereferences a NULL level (crash while repairing a file with more than one summary level)' % v,
+               w.render() if w else None)
+    ctx.floor('callers of jls_core_fsr_summaryN', n, 2)
+
+
+def evidence_cond(cond, src_txt):
+    for nd in walk(cond):
+        if nd.get('op') == 'member' and nd.get('arrow'):
+            base = strip_casts(nd['k'][0])
+            if base.get('op') == 'sub' and strip_casts(base['k'][0]).get('field') == 'level' and show(strip_casts(base['k'][1])) == src_txt:
+                return True
+    return False
